@@ -274,6 +274,69 @@ func C15(c *fw.Ctx) {
 			judge(c, pr, judgeOpts{SigPrefix: "shared-container"})
 		}
 	}
+	// what is shown follows the value through its history: every sequence of up to four steps (five when
+	// not quick) over {print, list keys, list values, remove a / b, add c / a, overwrite b, print inside an
+	// array} on one object, and over {print, append, remove first, store, print length, print nested} on
+	// one array; all properties / elements are shown after every history
+	{
+		id, num := model.Id, model.Num
+		type step struct {
+			name string
+			mk   func(k float64) []*model.N
+		}
+		ex := func(e *model.N) []*model.N { return []*model.N{model.ExprS(e)} }
+		pr := func(e *model.N) []*model.N { return []*model.N{model.Print(e)} }
+		objSteps := []step{
+			{"print", func(k float64) []*model.N { return pr(id("o")) }},
+			{"keys", func(k float64) []*model.N { return pr(model.CallN(model.BiKeys, id("o"))) }},
+			{"values", func(k float64) []*model.N { return pr(model.CallN(model.BiValues, id("o"))) }},
+			{"remove-a", func(k float64) []*model.N { return ex(model.CallN(model.BiDelete, id("o"), model.Str("a"))) }},
+			{"remove-b", func(k float64) []*model.N { return ex(model.CallN(model.BiDelete, id("o"), model.Str("b"))) }},
+			{"add-c", func(k float64) []*model.N { return ex(model.PAsg(id("o"), "c", num(k))) }},
+			{"add-a", func(k float64) []*model.N { return ex(model.PAsg(id("o"), "a", num(k))) }},
+			{"set-b", func(k float64) []*model.N { return ex(model.PAsg(id("o"), "b", model.Str("t"))) }},
+			{"print-nested", func(k float64) []*model.N { return pr(model.Arr(id("o"), model.Obj([]string{"in"}, []*model.N{id("o")}))) }},
+		}
+		arrSteps := []step{
+			{"print", func(k float64) []*model.N { return pr(id("o")) }},
+			{"append", func(k float64) []*model.N { return ex(model.Asg("o", model.CallN(model.BiAppend, id("o"), num(k)))) }},
+			{"remove-first", func(k float64) []*model.N { return ex(model.Asg("o", model.CallN(model.BiRemove, id("o"), num(0)))) }},
+			{"store", func(k float64) []*model.N { return ex(model.IAsg(id("o"), num(0), model.Str(""))) }},
+			{"length", func(k float64) []*model.N { return pr(model.CallN(model.BiLen, id("o"))) }},
+			{"print-nested", func(k float64) []*model.N { return pr(model.Arr(id("o"), model.Obj([]string{"in"}, []*model.N{id("o")}))) }},
+		}
+		maxLen := 4
+		if !c.Quick() {
+			maxLen = 5
+		}
+		c.Bound("shown_after_history_max_steps", maxLen)
+		walk := func(tag string, start func() *model.N, steps []step) {
+			var hist []int
+			var rec func()
+			rec = func() {
+				prog := []*model.N{model.Var("o", start())}
+				for i, si := range hist {
+					prog = append(prog, steps[si].mk(float64(10*(i+1)))...)
+				}
+				prog = append(prog, model.Print(id("o")), model.Print(model.Arr(id("o"), id("o"))))
+				res := (&model.Machine{}).Run(parenAll(prog))
+				if c.Mine() {
+					judge(c, prog, judgeOpts{SigPrefix: "shown-after-history|" + tag, NoOneLine: true})
+				}
+				if res.Err != nil || res.Unspec != "" || len(hist) >= maxLen {
+					return
+				}
+				for si := range steps {
+					hist = append(hist, si)
+					rec()
+					hist = hist[:len(hist)-1]
+				}
+			}
+			rec()
+		}
+		walk("object", func() *model.N { return model.Obj([]string{"b", "a"}, []*model.N{num(2), num(1)}) }, objSteps)
+		walk("array", func() *model.N { return model.Arr(num(1), model.Str("x")) }, arrSteps)
+	}
 	// every array of up to three elements over {"", "x", 5, nil, []}: each element shows, in order
 	{
 		pool := []func() *model.N{func() *model.N { return model.Str("") }, func() *model.N { return model.Str("x") }, func() *model.N { return model.Num(5) }, model.Nil, func() *model.N { return model.Arr() },
